@@ -338,6 +338,13 @@ func compareOut(exp Val, o Outcome) (kind, want, got string) {
 		return "panic", exp.String(), o.describe()
 	}
 	switch exp.Tag {
+	case "ANYOF":
+		for _, alt := range exp.Elems {
+			if k, _, _ := compareOut(alt, o); k == "" {
+				return "", "", ""
+			}
+		}
+		return "value", exp.String(), o.describe()
 	case "SKIP":
 		return "", "", ""
 	case "ERR":
